@@ -105,6 +105,12 @@ h("VerifGrpcACKeyMangling", SV, KY, "two GetActionResult requests with arbitrary
 h("VerifHTTPGrpcSameKey", SV, KY, "instance any ASCII string without newline, hash any 64-hex string, mangling on/off", "HTTP GET /I/ac/h and gRPC GetActionResult(I,h) use the same cache key", strings=True)
 h("VerifLookupKey", SV, KY, "two arbitrary 64-hex hashes, all kind pairs", "LookupKey is injective and key spaces are disjoint", strings=True)
 
+LD = ["zz_verif_load.go"]
+LDB = "<=%d files (AC raw, compressed CAS with size in the name, legacy .v1 CAS), file sizes, access times (distinct) and max_size symbolic; real worker goroutines, no preemption (round-robin at blocking points)"
+h("VerifLoad2", D, LD, LDB % 2, "start-up succeeds; survivors = the most recently accessed files that fit (files larger than max_size dropped and deleted); accounting and recency order match", unwind=24, switches=-1)
+h("VerifLoad3", D, LD, LDB % 3, "as VerifLoad2", unwind=24, switches=-1, timeout_s=1800)
+h("VerifLoadExtras", D, LD, "one file plus lost+found directories or .DS_Store files", "harmless extra directory entries are ignored", unwind=24, switches=-1)
+
 # property -> (quick harnesses, additional thorough harnesses, assumptions, outside)
 CODEC = "zstd codec replaced by a contract stub: frames self-delimiting, Decode(Encode(x)) = x, anything else fails"
 HASH = "sha256 replaced by a provenance model: collision-free, digest equals the declared hash iff the hashed bytes are exactly the declared blob"
@@ -121,6 +127,7 @@ P = {
          ["VerifPutCasZstd", "VerifPutCasZstdProxy", "VerifGetCasZstd", "VerifProxyGetCasRaw", "VerifProxyGetCasZstd"], [FSM, CODEC, HASH], ["files created by anything other than bazel-remote", "directory fsync"]),
  "C05": (["VerifLRUAdd3", "VerifLRUReserve3", "VerifLRUGet", "VerifGetAC", "VerifContains"], ["VerifLRUAdd4", "VerifLRUReserve4", "VerifGetCasZstd", "VerifGetCasRaw"], [FSM], ["atime order after restart (C09)", "more live entries than the bound"]),
  "C06": (["VerifValidatedAC", "VerifValidatedACDir", "VerifValidatedACProxy"], ["VerifValidatedAC2"], [FSM, "proto.Unmarshal by identity: stored bytes decode to the registered message"], ["real protobuf decoding", "races between the check and a concurrent eviction"]),
+ "C09": (["VerifLoad2", "VerifLoadExtras"], ["VerifLoad3"], [FSM, "access times are the model's (distinct) integers"], ["real readdir order and atime semantics (relatime)", "legacy v0/v1 layouts (migration code is executed only on a current layout)", "more than 3 files", "schedules other than round-robin"]),
  "C10": (["VerifFindMissing3", "VerifFindMissingProxy1", "VerifFindMissingBatch", "VerifFilterNonNil", "VerifContains"], ["VerifFindMissing4", "VerifFindMissingProxy2", "VerifFindMissingBatch2"], ["the backend is an arbitrary per-hash verdict"], ["hundreds of digests with all states symbolic", "512 real workers", "more than 2 preemptive context switches"]),
  "C11": (["VerifValidateFilesDirs", "VerifValidateSymlinks", "VerifValidateNil"], [], ["strings are ASCII (Go byte strings and SMT code-point strings agree there)"], ["field-by-field fidelity of proto.Marshal/Unmarshal and protojson", "non-ASCII strings"]),
  "C12": (["VerifProxyGetAC", "VerifProxyGetCasRaw", "VerifProxyGetCasZstd", "VerifPutRawProxy"], ["VerifProxyGetCasZstdZ", "VerifPutCasZstdProxy", "VerifPutCasRawProxy"], [FSM, CODEC, HASH, "the backend is an arbitrary cache.Proxy stub"], ["minio/azure/gcs SDK calls", "real HTTP body semantics"]),
